@@ -40,7 +40,10 @@ pub fn run_measure(case: &Value) -> Value {
     let thr = case.get("thr").map(vu).unwrap_or(10);
     quant_iron::verif_hooks::PARALLEL_THRESHOLD.set(thr);
     let mut out = match mode {
-        "measure" => res_json(one(&st, b, &qs, vf(&case["draw"]))),
+        "measure" => match std::panic::catch_unwind(std::panic::AssertUnwindSafe(|| one(&st, b, &qs, vf(&case["draw"])))) {
+            Ok(r) => res_json(r),
+            Err(p) => { quant_iron::verif_hooks::clear_draws(); panic_json(p) }
+        },
         "measure_n" => {
             let draws = vfs(&case["draws"]);
             quant_iron::verif_hooks::clear_draws();
